@@ -623,6 +623,12 @@ func call(i *interpreter, caller *frame, callpos token.Pos, fn value, args []val
 	panic(engineAbort{fmt.Sprintf("cannot call %T", fn)})
 }
 
+// packages whose functions are no-ops returning zero values (telemetry, metrics)
+var noopPackages = map[string]bool{
+	"github.com/cosmos/cosmos-sdk/telemetry": true,
+	"github.com/hashicorp/go-metrics":        true,
+}
+
 // nativeFunc is a function value implemented by the engine.
 type nativeFunc struct {
 	name string
@@ -666,6 +672,12 @@ func callSSA(i *interpreter, caller *frame, callpos token.Pos, fn *ssa.Function,
 				}
 				return ext(fr, args)
 			}
+		}
+		if fn.Pkg != nil && noopPackages[fn.Pkg.Pkg.Path()] {
+			if i.st != nil && i.inInit == 0 {
+				i.st.noteStub(fn.Pkg.Pkg.Path() + ".* (no-op)")
+			}
+			return zero(fn.Signature.Results())
 		}
 		if strings.HasPrefix(name, "(*math/big.Int).") || strings.HasPrefix(name, "(math/big.nat).") {
 			panic(engineAbort{"unmodelled math/big method " + name})
